@@ -59,6 +59,12 @@ package proportion
 //@   ensures [GPURequest] forall q *rs.QueueAttributes :: q.GPU.Request == old(q.GPU.Request) + add(pp.queues, queueId, q, resourceQuantities["GPU"])
 //@ end
 
+// n-th queue object on the parent chain of queue id s
+//@ define chainQ(queues map[common_info.QueueID]*rs.QueueAttributes, s common_info.QueueID, n int) *rs.QueueAttributes = queues[utils.anc(s, n)]
+// C08 running-sum step (DESIGN: L limitInvariant): a counter that passed the check `okQty(bound, before, r)` is, after
+// being charged, within its bound (or the bound is -1 = unlimited, or it was not raised at all).
+//@ define stays(bound real, after real, before real) bool = bound == -1.0 || after <= bound || after == before
+
 // ---- event handlers (closures) ----------------------------------------------------
 // Property C08 (mechanism "allocate/deallocate event handlers keep Allocated and AllocatedNotPreemptible
 // current"): for the queue of the task's job and EVERY ancestor q: Allocated'(q) = Allocated(q) + r in all
@@ -86,6 +92,8 @@ package proportion
 //@   ensures [MemoryAllocatedNotPreemptible] forall q *rs.QueueAttributes :: q.Memory.AllocatedNotPreemptible == old(q.Memory.AllocatedNotPreemptible) + add(pp.queues, ssn.ClusterInfo.PodGroupInfos[event.Task.Job].Queue, q, ite(ssn.ClusterInfo.PodGroupInfos[event.Task.Job].Preemptibility == "preemptible", 0.0, event.Task.AcceptedResource.memory))
 //@   ensures [GPUAllocated] forall q *rs.QueueAttributes :: q.GPU.Allocated == old(q.GPU.Allocated) + add(pp.queues, ssn.ClusterInfo.PodGroupInfos[event.Task.Job].Queue, q, event.Task.AcceptedResource.GetGpusQuota())
 //@   ensures [GPUAllocatedNotPreemptible] forall q *rs.QueueAttributes :: q.GPU.AllocatedNotPreemptible == old(q.GPU.AllocatedNotPreemptible) + add(pp.queues, ssn.ClusterInfo.PodGroupInfos[event.Task.Job].Queue, q, ite(ssn.ClusterInfo.PodGroupInfos[event.Task.Job].Preemptibility == "preemptible", 0.0, event.Task.AcceptedResource.GetGpusQuota()))
+//@   lemma [limitInvariant] forall n int :: 0 <= n && n < utils.depth(ssn.ClusterInfo.PodGroupInfos[event.Task.Job].Queue) ==> (old(cp.okQty(chainQ(pp.queues, ssn.ClusterInfo.PodGroupInfos[event.Task.Job].Queue, n).CPU.MaxAllowed, chainQ(pp.queues, ssn.ClusterInfo.PodGroupInfos[event.Task.Job].Queue, n).CPU.Allocated, event.Task.AcceptedResource.milliCpu)) ==> stays(chainQ(pp.queues, ssn.ClusterInfo.PodGroupInfos[event.Task.Job].Queue, n).CPU.MaxAllowed, chainQ(pp.queues, ssn.ClusterInfo.PodGroupInfos[event.Task.Job].Queue, n).CPU.Allocated, old(chainQ(pp.queues, ssn.ClusterInfo.PodGroupInfos[event.Task.Job].Queue, n).CPU.Allocated))) && (old(cp.okQty(chainQ(pp.queues, ssn.ClusterInfo.PodGroupInfos[event.Task.Job].Queue, n).Memory.MaxAllowed, chainQ(pp.queues, ssn.ClusterInfo.PodGroupInfos[event.Task.Job].Queue, n).Memory.Allocated, event.Task.AcceptedResource.memory)) ==> stays(chainQ(pp.queues, ssn.ClusterInfo.PodGroupInfos[event.Task.Job].Queue, n).Memory.MaxAllowed, chainQ(pp.queues, ssn.ClusterInfo.PodGroupInfos[event.Task.Job].Queue, n).Memory.Allocated, old(chainQ(pp.queues, ssn.ClusterInfo.PodGroupInfos[event.Task.Job].Queue, n).Memory.Allocated))) && (old(cp.okQty(chainQ(pp.queues, ssn.ClusterInfo.PodGroupInfos[event.Task.Job].Queue, n).GPU.MaxAllowed, chainQ(pp.queues, ssn.ClusterInfo.PodGroupInfos[event.Task.Job].Queue, n).GPU.Allocated, event.Task.AcceptedResource.GetGpusQuota())) ==> stays(chainQ(pp.queues, ssn.ClusterInfo.PodGroupInfos[event.Task.Job].Queue, n).GPU.MaxAllowed, chainQ(pp.queues, ssn.ClusterInfo.PodGroupInfos[event.Task.Job].Queue, n).GPU.Allocated, old(chainQ(pp.queues, ssn.ClusterInfo.PodGroupInfos[event.Task.Job].Queue, n).GPU.Allocated)))
+//@   lemma [quotaInvariant] ssn.ClusterInfo.PodGroupInfos[event.Task.Job].Preemptibility != "preemptible" ==> (forall n int :: 0 <= n && n < utils.depth(ssn.ClusterInfo.PodGroupInfos[event.Task.Job].Queue) ==> (old(cp.okQty(chainQ(pp.queues, ssn.ClusterInfo.PodGroupInfos[event.Task.Job].Queue, n).CPU.Deserved, chainQ(pp.queues, ssn.ClusterInfo.PodGroupInfos[event.Task.Job].Queue, n).CPU.AllocatedNotPreemptible, event.Task.AcceptedResource.milliCpu)) ==> stays(chainQ(pp.queues, ssn.ClusterInfo.PodGroupInfos[event.Task.Job].Queue, n).CPU.Deserved, chainQ(pp.queues, ssn.ClusterInfo.PodGroupInfos[event.Task.Job].Queue, n).CPU.AllocatedNotPreemptible, old(chainQ(pp.queues, ssn.ClusterInfo.PodGroupInfos[event.Task.Job].Queue, n).CPU.AllocatedNotPreemptible))) && (old(cp.okQty(chainQ(pp.queues, ssn.ClusterInfo.PodGroupInfos[event.Task.Job].Queue, n).Memory.Deserved, chainQ(pp.queues, ssn.ClusterInfo.PodGroupInfos[event.Task.Job].Queue, n).Memory.AllocatedNotPreemptible, event.Task.AcceptedResource.memory)) ==> stays(chainQ(pp.queues, ssn.ClusterInfo.PodGroupInfos[event.Task.Job].Queue, n).Memory.Deserved, chainQ(pp.queues, ssn.ClusterInfo.PodGroupInfos[event.Task.Job].Queue, n).Memory.AllocatedNotPreemptible, old(chainQ(pp.queues, ssn.ClusterInfo.PodGroupInfos[event.Task.Job].Queue, n).Memory.AllocatedNotPreemptible))) && (old(cp.okQty(chainQ(pp.queues, ssn.ClusterInfo.PodGroupInfos[event.Task.Job].Queue, n).GPU.Deserved, chainQ(pp.queues, ssn.ClusterInfo.PodGroupInfos[event.Task.Job].Queue, n).GPU.AllocatedNotPreemptible, event.Task.AcceptedResource.GetGpusQuota())) ==> stays(chainQ(pp.queues, ssn.ClusterInfo.PodGroupInfos[event.Task.Job].Queue, n).GPU.Deserved, chainQ(pp.queues, ssn.ClusterInfo.PodGroupInfos[event.Task.Job].Queue, n).GPU.AllocatedNotPreemptible, old(chainQ(pp.queues, ssn.ClusterInfo.PodGroupInfos[event.Task.Job].Queue, n).GPU.AllocatedNotPreemptible))))
 //@ end
 
 // Mirror image: the deallocate handler subtracts exactly what the allocate handler added.
@@ -170,4 +178,24 @@ package proportion
 //@   requires pp != nil && queue != nil
 //@   requires queue.UID in pp.queues && pp.queues[queue.UID] != nil
 //@   ensures result != nil && result.milliCpu == pp.queues[queue.UID].CPU.Allocated && result.memory == pp.queues[queue.UID].Memory.Allocated
+//@ end
+
+// ---- fair-share recursion over the hierarchy (C09 / C10) ---------------------------------------------
+// every queue record of the plugin is usable: non-nil, keyed by its UID, coherent caches, non-negative
+// over-quota weights, and every listed child id is present (so getChildQueues yields no nil entry)
+//@ define recOK(q *rs.QueueAttributes) bool = q != nil && rs.cacheOK(q) && q.CPU.OverQuotaWeight >= 0.0 && q.Memory.OverQuotaWeight >= 0.0 && q.GPU.OverQuotaWeight >= 0.0
+//@ define allQueuesOK(m map[common_info.QueueID]*rs.QueueAttributes) bool = forall k in m :: recOK(m[k]) && m[k].UID == k && (forall i int :: 0 <= i && i < len(m[k].ChildQueues) ==> m[k].ChildQueues[i] in m)
+//@ define subMap(sub map[common_info.QueueID]*rs.QueueAttributes, m map[common_info.QueueID]*rs.QueueAttributes) bool = forall k in sub :: k in m && sub[k] == m[k]
+
+// C09: every level divides the parent's fair share among its children (SetResourcesShare on the child
+// map with resources = parent.GetFairShare()); C10: no nil child entry is dereferenced when every listed
+// child is present. Partial correctness only: termination of the recursion needs the child graph to be
+// acyclic AND a measure "max height over a map", which the spec language cannot express (see report).
+//@ func (*proportionPlugin).setFairShareForQueues
+//@   props C09 C10
+//@   requires pp != nil && allQueuesOK(pp.queues) && subMap(queues, pp.queues)
+//@   modifies family(pp.queues[""].CPU.FairShare), family(pp.queues[""].lastFairShare)
+//@   loop 1
+//@     invariant allQueuesOK(pp.queues) && subMap(queues, pp.queues)
+//@   ensures allQueuesOK(pp.queues)
 //@ end
